@@ -346,3 +346,12 @@ package resources
 //@   mode nopanic=off
 //@   assigns nothing
 //@   ensures fresh(out) && fresh(out.Resources) && out.Resources != nil
+
+// whatever variant: a true answer means no type the two vectors share has the smaller side above the larger side
+//@ func (r *Resource) internalStrictlyOnlyExisting(smaller *Resource, doEqualsCheck bool) (ok bool)
+//@   props C18 C08
+//@   pure
+//@   ensures[bound] ok ==> (forall t Key :: has(old(r), t) && has(old(smaller), t) ==> rv(old(smaller), t) <= rv(old(r), t))
+//@   loop 1: invariant r != nil && smaller != nil && (old(r) != nil ==> r == old(r)) && (old(smaller) != nil ==> smaller == old(smaller)) && (old(r) == nil ==> r == Zero) && (old(smaller) == nil ==> smaller == Zero)
+//@   loop 1: invariant forall t Key :: seen(t) && has(smaller, t) ==> rv(smaller, t) <= rv(r, t)
+//@   loop 1: invariant forall t Key :: seen(t) ==> has(r, t)
